@@ -494,6 +494,9 @@ func shouldIgnoreTriple(t *triple.Triple, cls *semantic.GraphClause) (bool, erro
 					return true, nil
 				}
 			}
+		} else if cls.OTemporal && cls.OAnchorBinding == "" {
+			// A time bounded predicate in the object position only matches objects that are temporal predicates.
+			return true, nil
 		}
 	}
 
